@@ -107,7 +107,8 @@ def probe (prb : Probe) (outcome : Option ProbeResult) : Prog ProbeEnd :=
     | none => probeRetry prb svr
     | some res =>
       .call .now fun now =>
-      .call (.updateServer (handleSuccess prb.goal res now svr) fun s => some (handleSuccess prb.goal res now s)) fun r =>
+      -- the caller's copy uses the clock read after the probe; the conflict callback reads the clock again at commit
+      .call (.updateServerT (handleSuccess prb.goal res now svr) fun t s => some (handleSuccess prb.goal res t s)) fun r =>
       match r with
       | .error e => pure (.error (.repo e))
       | .ok _ => pure .success
